@@ -259,6 +259,12 @@ def _dom_qgauss_seq(tier, seed):
             else:
                 m = rng.randint(2, 40)
                 xs = np.cumsum([rng.choice([0.3, 1.0, 1e-7, 2.5]) for _ in range(m)]) * rng.choice([1.0, 1e-8, 1e-11, 1e5]) - rng.choice([0.0, 1.0])
+                if not (np.diff(xs) > 0).all():
+                    xs = xs + rng.choice([0.0, 1.0])       # the offset swallowed the spacings: tables are strictly increasing
+                    xs = np.unique(xs)
+                    m = xs.size
+                    if m < 2:
+                        continue
                 ys = np.array([rng.uniform(-2, 2) for _ in range(m)])
                 calls.append(("data", (xs, ys), n, eff))
 
